@@ -102,9 +102,9 @@ CHECKS = {
             "Bounded liveness (cannot prove termination for unexplored schedules); scheduling controlled at lock/condvar operations; always_flush executions labelled separately.",
             "DESIGN.md 4 C15", "pdbv-shuttle"),
     "C12": ("fault_enumeration",
-            "fault enumeration with injected durability loss: interposed sync syscalls feed a durability tracker; at every (sampled) file-operation stop point power-loss images are GENERATED (subset of dirty 4 KiB pages of every mapped file x length of the unsynced log tail) and recovered; plus an event invariant at every log reclamation",
+            "fault enumeration with injected durability loss: interposed sync syscalls feed a durability tracker; at every (sampled) file-operation stop point power-loss images are GENERATED (subset of dirty 4 KiB pages of every mapped file x length of the unsynced log tail) and recovered; plus an event invariant at every log reclamation; plus a sub-run with the real worker threads in which images are taken inside the interposed sync / truncate calls and durability must be monotone across successive images",
             "The power-loss model of the property is made executable: durable vs volatile content comes from the actual fdatasync/fsync/msync calls of the run, the page subset and tail length are generated, the oracle is 'prefix containing every synced transaction'. The ordering half of the property is also checked directly: no log file is truncated/unlinked while any table page differs from its durable copy.",
-            "Directory entries and ftruncate sizes are durable at once; pages are not torn; stepping mode (single thread) for the event invariant.",
+            "Directory entries and ftruncate sizes are durable at once; pages are not torn; stepping mode (single thread) for the event invariant; in the threaded sub-run the states reached depend on OS scheduling (the oracle is sound for any schedule).",
             "DESIGN.md 4 C12", "pdbv"),
 }
 
